@@ -277,6 +277,15 @@ def judge(task):
                                       'queries show prefix n=%d)' % (sorted({g for g in got if isinstance(g, str)}), n)))
                         ns = [n]
                         break
+        if ns is None and mode == 'read-only':
+            d2 = {k: v for k, v in d.items() if k != 'iterator_start'}
+            for n in ctx.refs_noit.get(L.canon(d2)) or []:
+                if len(data) > ctx.ends[n] and n >= returned:
+                    return None, ('C01:ro-iterator-start-wrong-on-torn-tail', 'read-only reopen of a crash image with '
+                                  'an unfinished tail: every query shows prefix n=%d except iterator(start), which '
+                                  'starts at the WRONG transaction: got %s, prefix has %s'
+                                  % (n, str(d.get('iterator_start'))[:300],
+                                     str(ctx.ref_dumps[n].get('iterator_start'))[:300]))
         if ns is None:
             # which prefix is closest, and on which keys does it differ?
             best = None
@@ -498,7 +507,7 @@ def double_crash(hist, ctx, ck, tag, pool_size, rng, tier, forced=None):
         picks = [(forced[0], forced[1])]
     else:
         picks = []
-        for c in rng.sample(cands, min(len(cands), 2 if tier == 'quick' else 5)):
+        for c in rng.sample(cands, min(len(cands), 2)):
             h2 = L.gen_history(rng, 'small', ntx=rng.choice([1, 2, 3]))
             delta = max(ctx.tids) - L.TID_BASE + 0x1000000
             for t in h2:
@@ -510,7 +519,7 @@ def double_crash(hist, ctx, ck, tag, pool_size, rng, tier, forced=None):
             shutil.rmtree(root)
         vfs.materialize(ctx.rr.init, evs, c1[0], c1[1], root)
         res2 = check_history(h2, ck, '%s-dc%d' % (tag, i), pool_size, rng, tier,
-                             150 if tier == 'quick' else 1200, base_root=root, base_ctx=ctx)
+                             150 if tier == 'quick' else 500, base_root=root, base_ctx=ctx)
         ck.count('double-crash-runs')
         for cut, v, obs in res2.get('results', []):
             ck.case([res2['ctx'].hid, cut[0], cut[1]], cut[2], None)
@@ -664,7 +673,7 @@ def main(argv=None):
             ck.violation(sig, swhat, case_of(small, scut))
         if ctx.rr is not None and not [v for v in res['violations'] if not listed(v[0])] and \
                 (ck.replay_path is None) and \
-                len(ctx.rr.final) <= 20000 and (tier == 'thorough' or hi % 2 == 0):
+                len(ctx.rr.final) <= 20000 and hi % 2 == 0:
             for sig, what, case in double_crash(hist, ctx, ck, 'h%d' % hi, pool, ck.rng, tier):
                 ck.violation(sig, what, case)
         if ctx.rr is not None and ck.replay_path is None:
